@@ -56,7 +56,7 @@ def handle (args : List String) (_impl : String) : String × String :=
     let m := 2 ^ bits
     match op with
     | "inv" => let a := u bits as; let x := parseHex as
-        (outO (invRing bits a), invSpec bits x)
+        (outO (Ruint.Gen.uint_inv_ring (nlimbs bits + 1) bits (nlimbs bits) a), invSpec bits x)
     | "prod" | "prodref" =>
         let xs := if as = "-" then [] else (as.splitOn ",").map parseHex
         (out (product bits (xs.map (toLimbs (nlimbs bits)))), toHex (xs.foldl (· * ·) 1 % m))
